@@ -558,6 +558,22 @@ def zoo(acc):
       'C': [[['L', 'a'], ['L', 'a', 'b'], None, 'a,b', ['L']][i % 5] for i in range(n)]}]])
     for i, f in enumerate(ZOO_PROBES):
       p.apply([['AddColumn', 'Z', 'P%d' % i, {'isFormula': True, 'type': 'Any', 'formula': f}]])
+    # Stored errors that remember the previous value: data columns of rich types with a trigger formula that raises
+    # when it is recalculated, after each cell was given a right-typed value of its own.
+    p.apply([['AddTable', 'Y', [{'id': 'A', 'type': 'Int', 'isFormula': False}]]])
+    rich = [('TD', 'Date', [86400.0 * 18000, 86400.0 * 3]), ('TT', 'DateTime:Europe/Berlin', [1.6e9, 1.5e9 + 0.5]),
+            ('TR', 'Ref:Z', [2, 0]), ('TL', 'RefList:Z', [['L', 1, 3], None]), ('TC', 'ChoiceList', [['L', 'a', 'b'], ['L', 'c']]),
+            ('TA', 'Any', [['d', 86400.0 * 7], ['L', 'x', ['L', 1]]]), ('TX', 'Text', ['plain', ''])]
+    ymeta = snapshot.rows_of(snapshot.take(p), '_grist_Tables_column')
+    ytab = [r for r, t in snapshot.rows_of(snapshot.take(p), '_grist_Tables').items() if t['tableId'] == 'Y'][0]
+    a_ref = int([r for r, c in ymeta.items() if c['colId'] == 'A' and c['parentId'] == ytab][0])
+    for cid, typ, _ in rich:
+      p.apply([['AddColumn', 'Y', cid, {'type': typ, 'isFormula': False, 'formula': '1/0', 'recalcWhen': 0, 'recalcDeps': [a_ref]}]])
+    p.apply([['BulkAddRecord', 'Y', [None, None], dict({'A': [1, 2]}, **{cid: json.loads(json.dumps(vals)) for cid, _, vals in rich})]])
+    p.apply([['BulkUpdateRecord', 'Y', [1, 2], {'A': [7, 8]}]])       # every trigger formula raises; the cells become stored errors
+    ysnap = snapshot.rows_of(snapshot.take(p), 'Y')
+    n_err = sum(1 for row in ysnap.values() for c, v in row.items() if c.startswith('T') and isinstance(v, list) and v and v[0] == 'E')
+    acc.count('zoo_stored_errors_with_previous_value', n_err)
     mon = ReopenMonitor(1)
     class H(object):
       pass
